@@ -29,7 +29,7 @@ theorem ret_ok_best (c : Cfg) (hnc : 0 < c.nc) (ss : Nat) (v0 d : V) (chs : Nat 
     (hret : Act.ret (.ok b v a rj) dr ∈ (run c ss (some v0) d chs evs).2) :
     Algo.best (run c ss (some v0) d chs evs).1.core = some (b, v) := by
   have h2 := run_inv2 c hnc ss v0 d chs evs
-  obtain ⟨_, ho⟩ := h2.retOut _ _ hret
+  obtain ⟨_, ho, _⟩ := h2.retOut _ _ hret
   simp only [outcome] at ho
   split at ho
   · simp at ho
@@ -102,7 +102,7 @@ theorem C02_nonempty1 (c : Cfg) (hnc : 0 < c.nc) (v0 d : V) (chs : Nat → Algo.
   intro id sd x hx
   have hp := run_popInv c 1 (by decide) v0 d chs evs
   have h2 := run_inv2 c hnc 1 v0 d chs evs
-  obtain ⟨_, ho⟩ := h2.retOut _ _ hret
+  obtain ⟨_, ho, _⟩ := h2.retOut _ _ hret
   obtain ⟨h, hh, _⟩ := hp.headMin rfl id sd x hx
   cases hpop : (run c 1 (some v0) d chs evs).1.core.pop with
   | nil => rw [hpop] at hh; simp at hh
